@@ -264,7 +264,42 @@ func (w *w1) discharged(fn *ssa.Function, v ssa.Value, ev dirtyEvent, d int) boo
 	if ev.cond != nil {
 		edge = boolEdge(fn, ev.cond, false)
 	}
-	return MustAfterE(fn, isB, nil, edge)(ev.in)
+	// a failing result may reach a shared return through a phi (named results, bare returns): the edge that
+	// carries it is as good as a failing return
+	fe := failingEdges(fn)
+	cut := func(from, to *ssa.BasicBlock) bool {
+		return (edge != nil && edge(from, to)) || fe(from, to)
+	}
+	return MustAfterE(fn, isB, nil, cut)(ev.in)
+}
+
+// failingEdges: the edges into a return block along which one of the returned
+// values is a failing constant (false for the functions whose boolean result
+// means success, a non-zero status).
+func failingEdges(fn *ssa.Function) func(from, to *ssa.BasicBlock) bool {
+	type edge struct{ f, t *ssa.BasicBlock }
+	set := map[edge]bool{}
+	for _, b := range fn.Blocks {
+		r, ok := b.Instrs[len(b.Instrs)-1].(*ssa.Return)
+		if !ok {
+			continue
+		}
+		for _, res := range r.Results {
+			ph, isP := res.(*ssa.Phi)
+			if !isP || ph.Block() != b {
+				continue
+			}
+			for i, e := range ph.Edges {
+				if bv, isb := constBool(e); isb && !bv && okResult[FuncName(fn)] {
+					set[edge{b.Preds[i], b}] = true
+				}
+				if k, isk := constInt(e); isk && k != 0 && isNamedStatus(e.Type()) {
+					set[edge{b.Preds[i], b}] = true
+				}
+			}
+		}
+	}
+	return func(from, to *ssa.BasicBlock) bool { return set[edge{from, to}] }
 }
 
 // writeContract: frozen contract of Inode.Write (DESIGN C10.W1): any completed
@@ -277,11 +312,31 @@ func (w *w1) writeContract(v ssa.Value) (bool, int) {
 	n := 0
 	for _, b := range fn.Blocks {
 		if r, isR := b.Instrs[len(b.Instrs)-1].(*ssa.Return); isR && len(r.Results) == 2 {
-			if bv, isb := constBool(r.Results[1]); isb && bv {
-				n++
-				if !MustBefore(fn, w.cleans(v, 0))(r) {
-					okP = false
+			if bv, isb := constBool(r.Results[1]); isb {
+				if bv {
+					n++
+					if !MustBefore(fn, w.cleans(v, 0))(r) {
+						okP = false
+					}
 				}
+				continue
+			}
+			// the result reaches a shared return through a phi (named results): every edge that can carry
+			// 'true' is a success return
+			if ph, isP := r.Results[1].(*ssa.Phi); isP && ph.Block() == b {
+				for i, e := range ph.Edges {
+					// (a non-constant result is the 'nothing was written' answer of the frozen contract)
+					if bv, isb := constBool(e); !isb || !bv {
+						continue
+					}
+					n++
+					pred := b.Preds[i]
+					last := pred.Instrs[len(pred.Instrs)-1]
+					if !MustBefore(fn, w.cleans(v, 0))(last) && !w.cleans(v, 0)(last) {
+						okP = false
+					}
+				}
+				continue
 			}
 		}
 	}
